@@ -55,10 +55,15 @@ def run(p, script, seed=0, frame=True, permute=None):
     from .containers import feeder_of
     feeder = feeder_of(p, "frame" if frame else "array")
 
+    halves = bool(p.get("halves"))     # the detector receives x / 2 (histograms on common edges are scale-equivariant, halving is exact): batches on
+    #                                    the even lattice then arrive with an integer dtype, the others carry fractions
+
     def wrap(rows):
         a = np.array(rows, dtype=float)
         if permute is not None:
             a = a[permute(len(a))]
+        if halves:
+            a = a / 2
         return feeder.batch(a.tolist())
 
     for t, s in enumerate(script):
@@ -87,8 +92,10 @@ def params(rng):
             "F": 1 if cls == "CDBD" else rng.choice([1, 2, 3]), "subsets": rng.choice([3, 4, 5])}
 
 
-def batch(rng, F, loc, spread, n=None):
+def batch(rng, F, loc, spread, n=None, even=False):
     n = n or rng.choice([8, 9, 12, 15, 20, 25, 30, 45, 49, 60, 81])
+    if even:
+        return [[2 * ((loc[f] + rng.randint(0, spread)) // 2) for f in range(F)] for _ in range(n)]
     return [[loc[f] + rng.randint(0, spread) for f in range(F)] for _ in range(n)]
 
 
@@ -96,7 +103,8 @@ def history(rng, p, nb):
     F = p["F"]
     loc = [rng.randint(-5, 5) for _ in range(F)]
     spread = rng.randint(6, 14)
-    script = [("set_reference", batch(rng, F, loc, spread))]
+    ev_ = bool(p.get("halves"))
+    script = [("set_reference", batch(rng, F, loc, spread, even=ev_))]
     for b in range(nb):
         r = rng.random()
         if r < 0.3:
@@ -106,13 +114,13 @@ def history(rng, p, nb):
         elif r < 0.4:
             spread = rng.randint(3, 25)
         if rng.random() < 0.06 and b > 1:
-            script.append(("set_reference", batch(rng, F, loc, spread)))
+            script.append(("set_reference", batch(rng, F, loc, spread, even=ev_)))
         elif rng.random() < 0.04 and b > 1:
             script.append(("reset",))
         if rng.random() < 0.05:
             script.append(("update", [list(r) for r in script[0][1]]))     # a batch identical to the first reference
         else:
-            script.append(("update", batch(rng, F, loc, spread)))
+            script.append(("update", batch(rng, F, loc, spread, even=ev_ and rng.random() < 0.3)))
     # some batches arrive as sorted exports (ascending or descending): a batch is a multiset to HDDDM / CDBD
     out = []
     for step in script:
